@@ -6,6 +6,8 @@ package command
 // that is not IPv4 / IPv4 CIDR is refused before anything is sent.
 
 import (
+	"github.com/v-byte-cpu/sx/zzvenv"
+	"verif/vs"
 	"fmt"
 	"strings"
 
@@ -86,8 +88,8 @@ func verifC02(c *drv.Ctx) {
 	targets := c02targets(c.Thorough())
 	c.R.Rule = fmt.Sprintf("(i) %d target strings (IPv4, IPv4 CIDR /0../32, malformed quads, every ::/n, 2001:db8::/n, ::ffff:10.0.1.0/n and fe80::/n for n in the stated range, mapped/zone/bracket forms, garbage) x %d commands, run end-to-end; "+
 		"strict IPv4 reference decides validity: valid => every probe destination lies in the denoted set (runs capped for sets larger than /20: only the parser is compared); not IPv4 => error, zero probes, no crash; "+
-		"(ii) target /28 x every exclusion file of <= 3 lines (quick: 2 for the cross product) over a 14-symbol line alphabet: probed set = target minus the union of the valid exclusion lines, a file with an invalid line is refused; "+
-		"(iii) address/pair files with destinations spelled as 4-byte and 16-byte (::ffff:) addresses against exclusions; non-trivial = run that put at least one probe on the wire or was refused", len(targets), len(cmds))
+		"(ii) target /28 x every exclusion file of <= 3 lines (quick: 2 for the cross product) over a 16-symbol line alphabet (incl. a host, a /30 and a /29 that share the target's base address: narrower-before-broader nesting): probed set = target minus the union of the valid exclusion lines, a file with an invalid line is refused; "+
+		"(iii) address/pair files with destinations spelled as 4-byte and 16-byte (::ffff:) addresses against exclusions; (iv) `arp --live` with three exclusion files: every pass leaves the excluded addresses alone and covers the others; non-trivial = run that put at least one probe on the wire or was refused", len(targets), len(cmds))
 	idx := 0
 	// (i) target strings
 	for _, cmd := range cmds {
@@ -173,7 +175,7 @@ func verifC02(c *drv.Ctx) {
 		}
 	}
 	// (ii) exclusion files
-	lines := []string{"10.0.1.19", "10.0.1.99", "10.0.1.20/30", "10.0.1.24/29", "10.0.1.0/24", "0.0.0.0/0", "10.0.1.16/29", "# comment", "", "10.0.1.21 # trailing", "  10.0.1.22  ", "\t10.0.1.23", "2001:db8::1", "#" + strings.Repeat("x", 70000)}
+	lines := []string{"10.0.1.19", "10.0.1.99", "10.0.1.20/30", "10.0.1.24/29", "10.0.1.0/24", "0.0.0.0/0", "10.0.1.16/29", "10.0.1.16", "10.0.1.16/30", "# comment", "", "10.0.1.21 # trailing", "  10.0.1.22  ", "\t10.0.1.23", "2001:db8::1", "#" + strings.Repeat("x", 70000)}
 	maxLen := 2
 	if c.Thorough() {
 		maxLen = 3
@@ -344,6 +346,70 @@ func verifC02(c *drv.Ctx) {
 				c.Outcome(fmt.Sprintf("spell:%d", len(dests)))
 			}
 		}
+	}
+	// (iv) exclusion in live mode: every pass of `arp --live` must leave the excluded addresses alone
+	for _, ex := range []string{"10.0.1.19", "10.0.1.20/30\n10.0.1.17", "10.0.1.16/29"} {
+		idx++
+		if !c.Mine(idx) || c.Expired() {
+			continue
+		}
+		var excl []zzref.RefNet
+		for _, l := range strings.Split(ex, "\n") {
+			b, o, _ := zzref.RefTarget(l)
+			excl = append(excl, zzref.RefNet{Base: b, Ones: o})
+		}
+		perPass := 0
+		for i := uint32(0); i < 16; i++ {
+			in := false
+			for _, n := range excl {
+				in = in || n.Contains(tbase+i)
+			}
+			if !in {
+				perPass++
+			}
+		}
+		sc := &vE2ESpec{Args: []string{"arp", "--json", "--live", "1s", "--exclude", "{DIR}/ex.txt", "10.0.1.16/28"}, Files: map[string]string{"ex.txt": ex + "\n"}, Horizon: 3000000}
+		want := 3 * perPass
+		sc.Net = func(r *vE2ERun) {
+			// three passes' worth of probes (an unfiltered pass has 16, so an unfiltered run gets there sooner), then Ctrl-C
+			vs.Block("three-passes", func() bool { return len(zzvenv.W.Written) >= want }, func() {})
+			vs.Visible("sigint", func() { vs.S.Interrupt() })
+		}
+		run, x := vE2EOnce(sc)
+		c.Eval(1)
+		c.Nontrivial(1)
+		desc := fmt.Sprintf("arp --live 1s --exclude %q 10.0.1.16/28", ex)
+		rep := map[string]any{"part": "c02", "args": sc.Args, "files": sc.Files}
+		key := "exclude-live:" + ex
+		if _, err := vBasic(x); err != nil {
+			c.Fail(key+":crash", desc+": "+err.Error(), rep)
+			continue
+		}
+		dests, bad := c02dests(c01cmds[0], run)
+		if bad != "" {
+			c.Fail(key+":malformed", desc+": "+bad, rep)
+			continue
+		}
+		got := map[uint32]int{}
+		for _, d := range dests {
+			got[d]++
+		}
+		for i := uint32(0); i < 16; i++ {
+			a := tbase + i
+			in := false
+			for _, n := range excl {
+				in = in || n.Contains(a)
+			}
+			if in && got[a] > 0 {
+				c.Fail(key+":excluded-probed", fmt.Sprintf("%s: %s is excluded but was probed %d times over the passes", desc, zzref.RefIPString(a), got[a]), rep)
+				break
+			}
+			if !in && got[a] < 3 {
+				c.Fail(key+":not-excluded-missing", fmt.Sprintf("%s: %s is not excluded but was probed %d times in 3 passes", desc, zzref.RefIPString(a), got[a]), rep)
+				break
+			}
+		}
+		c.Outcome(fmt.Sprintf("live-exclude:%d", len(dests)))
 	}
 	c.Set("cases", idx)
 }
